@@ -7,6 +7,7 @@ package main
 import (
 	"bufio"
 	"context"
+	"crypto/tls"
 	"errors"
 	"fmt"
 	"net"
@@ -25,6 +26,9 @@ type c15Case struct {
 	Ctx   string `json:"ctx"`  // deadline cancel
 	CtxMs int    `json:"ctx_ms"`
 	EvMs  int    `json:"ev_ms"` // -1 = the peer never does what is awaited
+	// Full (send): the socket buffers are filled beforehand (through the connection under the transport), so that a small
+	// envelope blocks at its first byte - also under a context that is already over when Send is called (CtxMs 0)
+	Full bool `json:"full,omitempty"`
 	// observed
 	Phase    int    `json:"phase_ms"`
 	Returned bool   `json:"returned"`
@@ -49,7 +53,7 @@ func (c *c15Case) classify() {
 }
 
 func (c *c15Case) coq() string {
-	kinds := map[string]string{"mem": "KTcp", "tcp": "KTcp", "ws": "KWs", "inproc": "KInproc"}
+	kinds := map[string]string{"mem": "KTcp", "tcp": "KTcp", "tcptls": "KTcp", "ws": "KWs", "inproc": "KInproc"}
 	ops := map[string]string{"send": "OpSend", "receive": "OpReceive", "accept": "OpAccept", "channelsend": "OpChannelSend",
 		"process": "OpProcessCommand", "establish": "OpEstablish", "tls": "OpTlsUpgrade", "clientfinish": "OpClientFinish",
 		"serverfinish": "OpServerFinish"}
@@ -62,7 +66,7 @@ func (c *c15Case) coq() string {
 		ev = coqfmt.Some(coqfmt.Z(int64(c.EvMs)))
 	}
 	return coqfmt.Record("k_kind", kinds[c.Kind], "k_op", ops[c.Op], "k_ctx", ctx, "k_ev", ev,
-		"k_phase", coqfmt.Z(int64(c.Phase)), "o_returned", coqfmt.Bool(c.Returned), "o_ms", coqfmt.Z(int64(c.Ms)),
+		"k_phase", coqfmt.Z(int64(c.Phase)), "k_tls", coqfmt.Bool(c.Kind == "tcptls"), "o_returned", coqfmt.Bool(c.Returned), "o_ms", coqfmt.Z(int64(c.Ms)),
 		"o_ctxerr", coqfmt.Bool(c.CtxErr))
 }
 
@@ -113,6 +117,34 @@ func c15Transports(kind string) (lime.Transport, *c15Peer, error) {
 		t := lime.NewTCPTransportOverConn(rc, false, nil)
 		p.raw = <-acc
 		_ = p.raw.(*net.TCPConn).SetReadBuffer(16 << 10)
+		p.stop = append(p.stop, func() { _ = ln.Close(); _ = p.raw.Close(); _ = t.Close() })
+		return t, p, nil
+	case "tcptls":
+		// as "tcp", upgraded to TLS in place before the measured operation; the peer completes the handshake and
+		// then never reads
+		ln, err := net.Listen("tcp", "127.0.0.1:0")
+		if err != nil {
+			return nil, nil, err
+		}
+		acc := make(chan net.Conn, 1)
+		go func() { c, _ := ln.Accept(); acc <- c }()
+		rc, err := net.Dial("tcp", ln.Addr().String())
+		if err != nil {
+			return nil, nil, err
+		}
+		_ = rc.(*net.TCPConn).SetWriteBuffer(16 << 10)
+		sc, cc := testTLS()
+		t := lime.NewTCPTransportOverConn(rc, false, &lime.TCPConfig{TLSConfig: cc})
+		p.raw = <-acc
+		_ = p.raw.(*net.TCPConn).SetReadBuffer(16 << 10)
+		hs := make(chan error, 1)
+		go func() { hs <- tls.Server(p.raw, sc).HandshakeContext(ctx) }()
+		if err := t.SetEncryption(ctx, lime.SessionEncryptionTLS); err != nil {
+			return nil, nil, err
+		}
+		if err := <-hs; err != nil {
+			return nil, nil, err
+		}
 		p.stop = append(p.stop, func() { _ = ln.Close(); _ = p.raw.Close(); _ = t.Close() })
 		return t, p, nil
 	case "ws":
@@ -231,6 +263,28 @@ func (c *c15Case) run() {
 				// fill the peer's queue (capacity 1), then one more
 				_ = t.Send(context.Background(), &lime.Session{State: lime.SessionStateNew})
 				size = 16
+			}
+			if c.Kind == "tcptls" {
+				size = 2 << 20
+			}
+			if c.Full {
+				if raw := lime.VerifWebsocketConn(t); raw != nil {
+					chunk := make([]byte, 64<<10)
+					filled := 0
+					for i := 0; i < 4096; i++ {
+						_ = raw.SetWriteDeadline(time.Now().Add(150 * time.Millisecond))
+						n, err := raw.Write(chunk)
+						filled += n
+						if err != nil {
+							break
+						}
+					}
+					_ = raw.SetWriteDeadline(time.Time{})
+					c.Note = fmt.Sprintf("filled %d bytes", filled)
+					size = 512 << 10
+				} else {
+					c.Note = "no connection to fill"
+				}
 			}
 			m := bigMessage(size)
 			c.measure(func(ctx context.Context) error { return t.Send(ctx, m) })
@@ -406,12 +460,12 @@ func (c *c15Case) run() {
 func runC15(env *Env) error {
 	env.Header = "From Coq Require Import ZArith List Bool.\nImport ListNotations.\nFrom Lime Require Import Base.Res Life.Timing Corr.C15.\n"
 	env.ShardSize = 200
-	env.Rule = "every context-taking operation (transport Send/Receive, listener Accept, channel send, ProcessCommand, client EstablishSession, TLS upgrade, client and server FinishSession) x transports (TCP over an in-memory connection and over loopback, WebSocket, in-process) x peer silent / not reading with full buffers / answering at a known time x deadline or cancellation at 250-400 ms; the return time is measured. Non-trivial: the peer never does what is awaited (the context has to end the operation). Distinct by printed case."
+	env.Rule = "every context-taking operation (transport Send/Receive, listener Accept, channel send, ProcessCommand, client EstablishSession, TLS upgrade, client and server FinishSession) x transports (TCP over an in-memory connection and over loopback, TCP upgraded to TLS, WebSocket - also with socket buffers filled beforehand and a context already over on entry -, in-process) x peer silent / not reading with full buffers / answering at a known time x deadline or cancellation at 250-400 ms; the return time is measured. Non-trivial: the peer never does what is awaited (the context has to end the operation). Distinct by printed case."
 	var rc c15Case
 	if ok, err := env.ReplayDesc(&rc); err != nil {
 		return err
 	} else if ok {
-		c := &c15Case{Kind: rc.Kind, Op: rc.Op, Ctx: rc.Ctx, CtxMs: rc.CtxMs, EvMs: rc.EvMs}
+		c := &c15Case{Kind: rc.Kind, Op: rc.Op, Ctx: rc.Ctx, CtxMs: rc.CtxMs, EvMs: rc.EvMs, Full: rc.Full}
 		c.run()
 		c.classify()
 		env.Add(c.coq(), c)
@@ -439,6 +493,12 @@ func runC15(env *Env) error {
 	}
 	add("mem", "tls")
 	add("tcp", "tls")
+	add("tcptls", "send")
+	add("tcptls", "receive")
+	// WebSocket Send with the socket buffers already full: a context that is over on entry, a deadline, a cancellation
+	cases = append(cases, &c15Case{Kind: "ws", Op: "send", Ctx: "deadline", CtxMs: 0, EvMs: -1, Full: true},
+		&c15Case{Kind: "ws", Op: "send", Ctx: "deadline", CtxMs: 300, EvMs: -1, Full: true},
+		&c15Case{Kind: "ws", Op: "send", Ctx: "cancel", CtxMs: 300, EvMs: -1, Full: true})
 	for _, k := range []string{"mem", "inproc"} {
 		add(k, "channelsend")
 		add(k, "serverfinish")
